@@ -395,6 +395,9 @@ func runC09(ctx *Ctx) {
 	ix := newCorr("imageextract")
 	defer ix.run(ctx)
 	if ctx.Replay == "" {
+		wordCounterCorr(ctx, ctx.pick(3000, 100000)).run(ctx)
+	}
+	if ctx.Replay == "" {
 		// the image extractor and the rendering of what it produces, on pages built around the
 		// extractor's cases (model against implementation only)
 		for i := 0; i < ctx.pick(300, 10000); i++ {
